@@ -6,7 +6,7 @@ import dataclasses
 import typing as t
 
 from typelib import marshals, serdes, unmarshals
-from typelib.py import classes, compat, inspection
+from typelib.py import classes, compat, inspection, refs
 
 __all__ = ("Codec", "codec")
 
@@ -14,7 +14,6 @@ __all__ = ("Codec", "codec")
 T = t.TypeVar("T")
 
 
-@compat.cache
 def codec(
     t: type[T],
     *,
@@ -54,10 +53,34 @@ def codec(
         codec_cls: The codec class definition, if overloading (optional).
 
     """
+    # A string reference means something different to each calling module:
+    #   resolve it on behalf of the caller *before* looking for a memoized codec.
+    if isinstance(t, str):
+        t = refs.forwardref(t)  # type: ignore[assignment]
+    return _codec(
+        t,
+        marshaller=marshaller,
+        unmarshaller=unmarshaller,
+        encoder=encoder,
+        decoder=decoder,
+        codec_cls=codec_cls,
+    )
+
+
+@compat.cache
+def _codec(
+    t: type[T],
+    *,
+    marshaller: marshals.AbstractMarshaller[T] | None = None,
+    unmarshaller: unmarshals.AbstractUnmarshaller[T] | None = None,
+    encoder: EncoderT = compat.json.dumps,
+    decoder: DecoderT = compat.json.loads,
+    codec_cls: type[CodecT[T]] | None = None,
+) -> CodecT[T]:
     marshal = marshaller or marshals.marshaller(t=t)
     unmarshal = unmarshaller or unmarshals.unmarshaller(t=t)
     cls = codec_cls or Codec
-    if inspection.isbytestype(t):
+    if inspection.isbytestype(_resolve(t)):
         cdc = cls(
             marshal=marshal,
             unmarshal=unmarshal,
@@ -72,6 +95,19 @@ def codec(
         decoder=decoder,
     )
     return cdc
+
+
+def _resolve(tp: t.Any) -> t.Any:
+    """Peel references, aliases, NewTypes and qualifiers down to the type they stand for."""
+    for _ in range(16):
+        if isinstance(tp, refs.ForwardRef):
+            tp = refs.evaluate(tp)
+            continue
+        unwrapped = inspection.unwrap(tp)
+        if unwrapped is tp:
+            break
+        tp = unwrapped
+    return tp
 
 
 @classes.slotted(dict=False, weakref=False)
